@@ -199,3 +199,9 @@ def check_C15(tier):
     from drivers import cnf
 
     return cnf.run(Check("C15", tier), tier)
+
+
+def check_C13(tier):
+    from drivers import manager
+
+    return manager.run(Check("C13", tier), tier)
